@@ -1,5 +1,6 @@
 import M3d.Basic
 import M3d.Model.RenderSampling
+import M3d.Model.LightTree
 import M3d.Gen.ReflectAmount
 /-!
 Line-protocol handler for C19.  Core-only.
@@ -246,6 +247,52 @@ def kSelGrid : P String := do
     acc.mapIdx fun idx cnt => if idx = j then cnt + 1 else cnt) (List.replicate n 0)
   pure (",".intercalate (counts.map toString))
 
+/-- A tree of joined lights: `L <hex weight>` or `J <k>` followed by `k` subtrees. -/
+partial def ltree : P (LTree Float) := do
+  let t ← tok
+  if t = "L" then do
+    let w ← fl
+    pure (.leaf w)
+  else if t = "J" then do
+    let k ← nat
+    let ts ← many k ltree
+    pure (.join ts)
+  else failure
+
+/-- Nested `JoinAreaLights` with the structure the object really has: the primitive light reached
+by the draws (index into the leaves, left to right) and `TotalEmission`. -/
+def kJNest : P String := do
+  let _built ← tok; let t ← ltree; let d ← nat; let us ← many d fl; done
+  match t.select us with
+  | none => pure s!"none {sf t.total}"
+  | some i => pure s!"{i} {sf t.total}"
+
+/-- A tree of joined lights with integer weights: `L <m>` or `J <k>` followed by `k` subtrees
+(as a weight list per node: `(total, leaves, ok)` where `ok` = every join below has a positive
+total dividing `g`, the hypothesis `LTree.gridOK` of `M3d.C19.nested_join_grid_exact`). -/
+partial def ntree (g : Nat) : P (Nat × List Nat × Bool) := do
+  let t ← tok
+  if t = "L" then do
+    let m ← nat
+    pure (m, [m], true)
+  else if t = "J" then do
+    let k ← nat
+    let ts ← many k (ntree g)
+    let tot := ts.foldl (fun a x => a + x.1) 0
+    let ok := ts.all (fun x => x.2.2) && decide (0 < tot) && g % tot == 0
+    pure (tot, (ts.map fun x => x.2.1).flatten, ok)
+  else failure
+
+/-- The law itself on the full midpoint grid of `N^d` draws (integer weights, every join's total
+positive and dividing `N`): light `l` must be reached by exactly `N^d·m_l/T` draws
+(`M3d.C19.nested_join_grid_exact`) and `TotalEmission` is `T·unit` — independent of how the join is
+structured. -/
+def kJNestGrid : P String := do
+  let _shape ← tok; let unit ← fl; let g ← nat; let d ← nat; let (t, ms, ok) ← ntree g; done
+  if !ok then failure
+  let counts := ms.map fun m => g ^ d * m / t
+  pure s!"{",".intercalate (counts.map toString)} {sf (Float.ofNat t * unit)}"
+
 def kinds : List (String × P String) := [
   ("schlick", kSchlick), ("schlickg", kSchlickGen), ("refr", kRefr), ("rsamp", kRSamp false), ("rsampd", kRSamp true),
   ("rdens", kRDens false), ("rddens", kRDens true), ("rbsdf", kRBsdf),
@@ -255,7 +302,8 @@ def kinds : List (String × P String) := [
   ("jsel", kJSel), ("jselQ", kJSelQ), ("jdens", kJDens), ("jdensQ", kJDensQ),
   ("finfo", kFInfo), ("ausamp", kAuSamp), ("audens", kAuDens), ("fdens", kFDens), ("fsamp", kFSamp),
   ("pfdens", kPFDens), ("pfsamp", kPFSamp), ("hgbsdf", kHgBsdf), ("jbsdf", kJBsdf),
-  ("sphere", kSphere), ("cyl", kCyl), ("mesh", kMesh), ("join", kJoin), ("selgrid", kSelGrid)]
+  ("sphere", kSphere), ("cyl", kCyl), ("mesh", kMesh), ("join", kJoin), ("selgrid", kSelGrid),
+  ("jnest", kJNest), ("jnestgrid", kJNestGrid)]
 
 def handleAll (ws : List String) : Option String :=
   match ws with
